@@ -213,6 +213,57 @@ def neg_rule(chk, db):
         chk.analysis_broken("NEG: only %d conversion kernels with an integral parameter found (floor 3)" % n)
 
 
+def castsign_rule(chk, db):
+    """CASTSIGN: a conversion front end hands the caller's integer to the kernel in its own type: the value parameter is never
+    static_cast to a fixed (or conditionally fixed) signed type - for an unsigned 64-bit argument above the signed maximum that
+    changes the value that is formatted."""
+    import re as _re
+    signed_tok = _re.compile(r"(?<!unsigned )\b(long long|long|int|short|signed char|intmax_t|ptrdiff_t|ssize_t)\b")
+    n = 0
+    for f in db.funcs:
+        if f.get("body") is None or not any(k in f["file"] for k in KERNEL_FILES):
+            continue
+        tparams = set(tp["n"] for tp in (f.get("tparams") or []))
+        tainted = set(p0["n"] for p0 in f["params"] if p0["ty"].replace("const ", "").strip() in tparams)
+        if not tainted:
+            continue
+        aliases = {}
+        for st in astx.walk_stmts(f["body"]):
+            if st.get("k") == "decl":
+                for v in st["vars"]:
+                    if v.get("other") == "TypeAlias":
+                        aliases[v["n"]] = v.get("ty") or ""
+        n += 1
+        construct = astx.sig(f)
+        chk.instance("CASTSIGN")
+        bad = None
+        for x in astx.all_exprs(f):
+            if x.get("k") != "cast":
+                continue
+            inner = x.get("e")
+            while inner is not None and inner.get("k") == "paren":
+                inner = inner.get("e")
+            if inner is None or inner.get("k") != "ref" or inner.get("n") not in tainted:
+                continue
+            ty = (x.get("ty") or "").replace("const ", "").strip()
+            seen = 0
+            while ty in aliases and seen < 4:
+                ty = aliases[ty]
+                seen += 1
+            if ty in tparams or "make_unsigned" in ty or ty.startswith("unsigned") or ty in ("bool",):
+                continue
+            if signed_tok.search(ty):
+                bad = (x, ty)
+                break
+        chk.obligation("CASTSIGN", construct, bad is None)
+        if bad:
+            chk.violation("CASTSIGN", construct, "value-converted-to-signed", "%s: `%s` converts the caller's value to `%s`; an unsigned value above "
+                          "the signed maximum of that type is formatted as a negative number" % (astx.loc(f, bad[0]), astx.show(bad[0], 50), bad[1]),
+                          {"where": astx.loc(f)})
+    if n < 3:
+        chk.analysis_broken("CASTSIGN: only %d conversion functions with an integral value parameter (floor 3)" % n)
+
+
 def sign_rule(chk, db):
     """SIGN: a formatting kernel that can emit '-' emits it on every path on which the value may be negative (std::to_chars
     writes the sign for every base). Facts come from the tests on the path: `v < 0` false or an unsigned type excuse it."""
@@ -288,6 +339,7 @@ def run(chk, tier):
     map_rule(chk, db)
     neg_rule(chk, db)
     sign_rule(chk, db)
+    castsign_rule(chk, db)
     chk.assumptions += [
         "digits produced, values parsed, round trips and overflow detection at the type's limits are run-time values and are "
         "not decided by these clauses",
